@@ -78,6 +78,8 @@ def _r8(chk: Check, R8: str) -> None:
                                 'budget inside the guarded code is not stopped' % (lim.rsplit('.', 1)[-1], what), h.lineno, fi.module.rel)
         elif prev[0]:
             seen[key] = (True, 're-raises', h.lineno, fi.module.rel)
+    for q_, wh_, ret_ in common.suppressing_exits(F):
+        chk.bad(R8, q_ + ' returns ' + ret_, wh_, '__exit__ returns %s: when that is truthy the ops-limit error leaving the with-block is dropped' % ret_)
     for key, (ok, det, line, rel) in sorted(seen.items()):
         chk.require(ok, R8, key, '%s:%d' % (rel, line), det)
     # handlers that cannot catch it are the normal case: record them so the rule is not vacuous
@@ -224,7 +226,7 @@ def _builds_message(e) -> bool:
     # a line for the host's diagnostic channel (logger.debug(...) on a module-level logging.Logger) changes nothing the program or
     # the caller of eval can see; type(x) for such a message likewise
     if isinstance(f, tuple) and f[:1] == ('attr',) and isinstance(f[1], tuple) and f[1][:2] == ('ref', 'modvar') and f[2] in (
-            'debug', 'info', 'warning', 'error', 'critical', 'log', 'isEnabledFor') and common.is_module_logger(_FACTS[0], f[1][2]):
+            'debug', 'info', 'isEnabledFor') and common.is_module_logger(_FACTS[0], f[1][2]):
         return True
     if isinstance(f, tuple) and f[:2] == ('ref', 'builtin') and f[2] in ('type', 'len', 'id'):
         return True
